@@ -1,5 +1,6 @@
 mod c08;
 mod c11;
+mod c17;
 mod c20;
 mod core;
 mod gen;
@@ -13,7 +14,7 @@ mod sut;
 use core::{Scenario, Tier};
 
 fn scenarios() -> Vec<&'static dyn Scenario> {
-    vec![&c20::C20Lib, &c11::C11Threads, &c08::C08Images]
+    vec![&c20::C20Lib, &c11::C11Threads, &c08::C08Images, &c17::C17Corrupt]
 }
 
 fn meta(prop: &str) -> (&'static str, Vec<&'static str>, serde_json::Value) {
@@ -42,6 +43,16 @@ fn meta(prop: &str) -> (&'static str, Vec<&'static str>, serde_json::Value) {
                 "non-termination is detected by a CPU-time budget (RLIMIT_CPU, 60 s per batch of images against a typical 5-500 ms)",
             ],
             serde_json::json!({"components": components, "rule": "a case = (valid base source, storage-fault image, delivery, backend): bases are the 892 corpus files (walked systematically) and generated module sets; images are truncations (biased to the last bytes), single-bit flips, 512-byte sector zero-fill/duplication/swap and splices; delivered as a literal or as a file read through the simulated disk (truncation/flip/zero-fill applied by the seam to the bytes in flight); both backends; every error and warning rendered with Display and contextualize. distinct = distinct (base hash, image, delivery); non-trivial = the image differs from the base"}),
+        ),
+        "C17" => (
+            "exploration",
+            vec![
+                "SLICE: stored-byte corruption only (replacement by a byte that starts no ASN.1 token, 512-byte zero-fill, truncation inside an assignment) at positions the generator's token map classifies as strict; deletion or replacement by another valid token is a typo model, not a fault model, and is not decided here",
+                "a result of Ok, or an Err that is not a syntax (matching) error, is not judged",
+                "whether a leading comment counts as the first token of the malformed assignment is resolved in favour of the code (either is accepted)",
+                "when contextualize flags no line at all (the failing line is blank) only Display, the contextualize header and the structured line are compared",
+            ],
+            serde_json::json!({"components": components, "rule": "a case = (generated source of 1..3 modules with LF/CRLF and comments, corruption, delivery, backend): small sources (<= 4 assignments per module) are swept exhaustively over every strict byte position, larger ones sampled; every unit (header, assignment, END) is also hit at its first and last strict byte; plus sector zero-fills and truncations inside assignments; delivered as a literal or as a file whose bytes the seam corrupts in flight. distinct = distinct (source hash, corruption, delivery, backend); non-trivial = the compiler returned a syntax error and all five clauses were evaluated"}),
         ),
         "C11" => (
             "exploration",
